@@ -8,6 +8,7 @@ import (
 	"os"
 	"os/exec"
 	"path/filepath"
+	"runtime"
 	"strings"
 	"sync"
 	"time"
@@ -475,6 +476,7 @@ func c08(c *ev.Ctx) {
 	c.Sample(map[string]interface{}{"kind": "text", "script": clip(cases[0].Script, 200)})
 	c.Sample(map[string]interface{}{"kind": "struct", "script": cases[nText+2*len(c08FaultScripts)].Script, "object": gen.RandStruct(rand.New(rand.NewSource(cases[nText+2*len(c08FaultScripts)].ObjSeed)), 4, 45, 20).Desc})
 	c08UsableAfterwards(c)
+	c08CompileGrowth(c)
 	// Prepare / Dump / Execute do not panic after a second Prepare that was accepted, refused
 	// by the compiler, or refused by the size limits (the stream is shared with C20)
 	c20RePrepare(c)
@@ -643,4 +645,65 @@ func c08Probes(c *ev.Ctx, self, work string) {
 		fails := !done || !strings.HasPrefix(res[0], "ok")
 		c.Probe(p.name, fails, p.what, map[string]interface{}{"script": clip(p.script, 200)})
 	}
+}
+
+// c08CompileGrowth: constructs nested in themselves, level after level, in scripts whose
+// text grows by a few dozen bytes per level. What Prepare does with them must stay in
+// proportion: the bytes it allocates (a logical measure, not a time) are bounded, whether it
+// accepts the script or refuses it as too large. A construct that is compiled once per
+// alternative doubles the program with every level, and a script of a kilobyte takes the
+// host's memory.
+func c08CompileGrowth(c *ev.Ctx) {
+	const bound = 64 << 20
+	shapes := []struct{ name, pre, post string }{
+		{"switch-two-values", "switch (x) { case 1, 2 { ", " } }"},
+		{"switch-three-values-default", "switch (x) { case 1, 2, 3 { ", " } default { y = 1; } }"},
+		{"switch-later-arm", "switch (x) { case 7 { y = 1; } case 1, \"a\", /b/ { ", " } }"},
+		{"switch-default-arm", "switch (x) { case 1, 2 { y = 1; } default { ", " } }"},
+		{"switch-in-foreach", "foreach i in [1] { switch (i) { case 1, 2 { ", " } } }"},
+		{"if-else", "if (x) { ", " } else { y = 1; }"},
+		{"else-branch", "if (x) { y = 1; } else { ", " }"},
+		{"while", "while (x) { ", " x = 0; }"},
+		{"foreach-range", "foreach a in 1..2 { ", " }"},
+		{"function-definition", "function inner() { ", " }"},
+	}
+	var maxSeen uint64
+	for _, sh := range shapes {
+		for _, inFn := range []bool{false, true} {
+			for _, levels := range []int{6, 12, 18, 24, 40, 80} {
+				id := fmt.Sprintf("compile-growth/%s/%v/%d", sh.name, inFn, levels)
+				if !c.Want(id) {
+					continue
+				}
+				script := strings.Repeat(sh.pre, levels) + "y = 2;" + strings.Repeat(sh.post, levels)
+				if inFn {
+					script = "function outer(x) { " + script + " return 1; } return outer(1);"
+				} else {
+					script = "x = 1; " + script + " return 1;"
+				}
+				var before, after runtime.MemStats
+				runtime.ReadMemStats(&before)
+				evr, err := eng.New(script, eng.Options{NoHook: true, NoOptimize: levels%12 == 0})
+				runtime.ReadMemStats(&after)
+				delta := after.TotalAlloc - before.TotalAlloc
+				if delta > maxSeen {
+					maxSeen = delta
+				}
+				c.Case(id, true)
+				if delta > bound {
+					c.Violation(id, "Prepare out of proportion: "+sh.name, map[string]interface{}{
+						"summary": fmt.Sprintf("%s nested %d levels (a script of %d bytes): Prepare allocated %d bytes (bound %d) and returned err=%v: the work grows exponentially with the nesting depth, a few more levels take the memory of the host", sh.name, levels, len(script), delta, bound, err),
+						"script":  clip(script, 400)})
+					break
+				}
+				if err == nil && levels <= 12 {
+					// (nested loops of depth 12 run 4096 times; deeper ones are only prepared)
+					if o := evr.Exec(nil); o.Panicked {
+						c.Violation(id, "panic running a nested construct", map[string]interface{}{"summary": sh.name + ": " + o.PanicMsg, "script": clip(script, 400)})
+					}
+				}
+			}
+		}
+	}
+	c.Extra("max_bytes_allocated_by_one_prepare_of_nested_constructs", maxSeen)
 }
